@@ -15,7 +15,7 @@ CHECKS = {
              "every length 0..Nmax-n, finalize} is explored to closure for each configuration of a "
              "lattice (all 1<=S<=L<=8, 3 frame styles, 2 windows, padded/unpadded; SI banks x shifts "
              "1..6 x styles); every transition runs the real method and is compared with compute_full "
-             "of a fresh instance, so all 2^(Nmax-1) chunkings of every prefix are covered, not sampled. Added after seeded changes: every composition on ONE live computer with all outputs held until after finalize, and every interleaving of the calls of TWO live computers (schedule enumeration; snapshots would hide shared buffers). Wave 4: sub-check transport - every composition through one live computer with chunks in non-native byte order / strided / negative-stride / in one caller buffer overwritten after each call, and with the computer deep-copied or pickled before every call and before exactly one call at every position.",
+             "of a fresh instance, so all 2^(Nmax-1) chunkings of every prefix are covered, not sampled. Added after seeded changes: every composition on ONE live computer with all outputs held until after finalize, and every interleaving of the calls of TWO live computers (schedule enumeration; snapshots would hide shared buffers). Wave 4: sub-check transport - every composition through one live computer with chunks in non-native byte order / strided / negative-stride / in one caller buffer overwritten after each call, and with the computer deep-copied or pickled before every call and before exactly one call at every position. Wave 5: transport also offers a refused integer chunk before exactly one call at every position, runs every call under np.errstate(all='raise'), and builds the computer with flags spelled 0/1 / numpy.bool_.",
         note="Sample values are one generic signal per configuration; compute_full is the reference "
              "(its own definition is C02/C03); merging validated by poisoning and an unmerged cross-check.",
         design="3/C01"),
@@ -27,7 +27,7 @@ CHECKS = {
              "Nyquist x L 2..12 x S x padded/unpadded (every DFT size 2..12,16, all residues mod 4) x 3 "
              "frame styles x 2 windows x log/power/energy x 6 lengths around the frame boundaries) is "
              "enumerated completely and each point compared with an independent reference (full complex "
-             "DFT, explicit reflection map, responses rebuilt by the docstring recipe). Also construction histories: every ordered pair/triple of computers built on ONE bank instance, evaluated after all were built; data alphabet incl. loud-then-quiet, outlier, tiny, strided and negative-stride views; realistic 25/10 ms geometry. Wave 4: big-endian input and computers obtained via deepcopy / pickle round trip / after an earlier compute_full.",
+             "DFT, explicit reflection map, responses rebuilt by the docstring recipe). Also construction histories: every ordered pair/triple of computers built on ONE bank instance, evaluated after all were built; data alphabet incl. loud-then-quiet, outlier, tiny, strided and negative-stride views; realistic 25/10 ms geometry. Wave 4: big-endian input and computers obtained via deepcopy / pickle round trip / after an earlier compute_full. Wave 5: numpy error state all='raise' (generic / zero / loud-then-quiet signals) and constructor flags spelled 0/1 / numpy.bool_.",
         note="numpy.fft trusted; get_truncated_response taken as given (C06); one generic signal per "
              "length plus zeros.",
         design="3/C02"),
@@ -37,7 +37,7 @@ CHECKS = {
                   "np.convolve reference model; construction/call histories in one process",
         text="Every in-domain point of banks x shifts 1..6 x styles x padded/unpadded x windows x "
              "log/power/energy x float dtypes x lengths {0..3S, M-1, M, M+S, D-1, D, D+1, 2D+3} is "
-             "computed by the real overlap-save implementation and by direct convolution. Also construction/call histories: ordered pairs of configurations built in one process, 7 compute_full calls on the live instances (short utterances first), each vs the definition.",
+             "computed by the real overlap-save implementation and by direct convolution. Also construction/call histories: ordered pairs of configurations built in one process, 7 compute_full calls on the live instances (short utterances first), each vs the definition. Waves 4-5: computers via deepcopy / pickle, refused integer input inside histories, big-endian / strided / negative-stride inputs in every dtype, flag spellings, numpy error state.",
         note="np.convolve trusted; impulse responses sampled in the documented DFT width; the reference "
              "asserts its DFT size equals the computer's (harness error otherwise).",
         design="3/C03"),
@@ -49,7 +49,7 @@ CHECKS = {
              "frame_by_frame_calculation(N, chunk_size)} are explored to closure (utterances bounded by "
              "Nmax), so the verdict covers histories of unbounded length over the alphabet; each "
              "observation must be bit-identical to a fresh instance fed only the current utterance; "
-             "refusals mid-utterance must raise ValueError and leave the canonical state unchanged.",
+             "refusals mid-utterance must raise ValueError and leave the canonical state unchanged. Wave 4: same buffer object refilled, big-endian input left untouched, refused inputs, results of several utterances held to the end.",
         note="Finite alphabet of chunk/utterance lengths; merging by canonical state with NaN-poisoned "
              "dead regions (as C01).",
         design="3/C04"),
@@ -62,7 +62,7 @@ CHECKS = {
              "spans < rate/2: peak at the centre with gain 1 (two routes: DTFT of the impulse response and "
              "the frequency response), 3 dB crossings (erb=False) or ERB = edge spacing (erb=True, Parseval), "
              "unit L2 norm with scale_l2_norm; triangle / mel-triangle equality at every bin; invalid ranges "
-             "rejected with ValueError. Also odd/fractional sampling rates and a history sub-check: every 2-call (3 thorough) sequence on one bank object, results held, compared with fresh objects, aliasing/scribble tests.",
+             "rejected with ValueError. Also odd/fractional sampling rates and a history sub-check: every 2-call (3 thorough) sequence on one bank object, results held, compared with fresh objects, aliasing/scribble tests. Waves 4-5: frequency-grid sub-check (odd widths, half spectra), support threshold changed before construction, gammatone orders 1-2, numpy error state, scale objects re-parameterised / copied / pickled.",
         note="(Nyquist, Nyquist+1] is left open by the property and untested; unconstructible valid "
              "configurations are counted, not violations; odd sampling rates not enumerated.",
         design="3/C05"),
@@ -73,7 +73,7 @@ CHECKS = {
         text="For every bank, filter and width: rebuilt-from-truncated vs full response within 2 eps "
              "(identical up to 1e-12 for triangular/Fbank), start bin in [0,width), real banks inside the "
              "half spectrum, half=True equals the leading bins, Hermitian symmetry, analytic filters vanish "
-             "on negative frequencies, all finite. Also banks with high_hz in (Nyquist, Nyquist+1] at large widths, one bank object per case, and call histories (incl. the same call twice on banks with narrow filters).",
+             "on negative frequencies, all finite. Also banks with high_hz in (Nyquist, Nyquist+1] at large widths, one bank object per case, and call histories (incl. the same call twice on banks with narrow filters). Waves 4-5: banks under a changed support threshold and threshold histories; width / index as numpy scalars and 0-d arrays with argument immutability.",
         note="Widths per bank are bounded by the cost of the library's per-period Python loops (stated in "
              "the module).",
         design="3/C06"),
@@ -83,7 +83,7 @@ CHECKS = {
                   "inverse DFT vs impulse response and support bounds in both domains; call histories on one bank object",
         text="In every buffer long enough for the filter: ifft(frequency response) equals the impulse "
              "response within 2 eps, real iff is_real, magnitudes outside `supports` < 2 eps and outside "
-             "`supports_hz` < 2.5 eps, zero-phase supports straddle 0, causal gammatone supports start at 0. Also call histories on one bank object (results held, fresh-object differential oracle).",
+             "`supports_hz` < 2.5 eps, zero-phase supports straddle 0, causal gammatone supports start at 0. Also call histories on one bank object (results held, fresh-object differential oracle). Waves 4-5: threshold axis and threshold histories; argument types (numpy integers on long supports) and option spellings (0/1, numpy.bool_, JSON).",
         note="Domain as stated by the property (zero-phase banks; gammatone order >= 3 without L2 scaling); "
              "filters with W0 above a cap are skipped and counted.",
         design="3/C07"),
@@ -96,7 +96,7 @@ CHECKS = {
              "to the bound under a private root with the oracle 'created last wins'; the "
              "alias_factory_subclass_from_arg contract over mapping types; JSON-round-tripped nested "
              "configurations (computer x bank alias x scale alias x window alias) vs explicit construction "
-             "(array_equal features). Also lookup/register/lookup histories (queries repeated after every class creation), classes that inherit `aliases`, falsy aliases, and build-modify-build histories for string aliases.",
+             "(array_equal features). Also lookup/register/lookup histories (queries repeated after every class creation), classes that inherit `aliases`, falsy aliases, and build-modify-build histories for string aliases. Waves 4-5: foreign-family aliases in nested slots, near-miss aliases (whitespace, case, edits) through 4 routes, class statements executed again (names repeat).",
         note="Hierarchies are trees (no multiple-inheritance DAGs); creating classes is global state, so "
              "each hierarchy lives under a fresh private root.",
         design="3/C08"),
@@ -107,7 +107,7 @@ CHECKS = {
         text="Every point of the Cartesian lattice runs the real tool and compares every stored matrix "
              "(ids present, nothing else, allclose rtol 1e-5 in float32) with read_signal -> channel pick -> "
              "pre-processors in order -> compute_full (or raw column) -> post-processors in order; config "
-             "syntaxes must agree and a fixed --seed must be reproducible (dither). Also --seed over {0,1,7,2^31-1}, separate interpreter processes with distinct hash salts, a framing lattice (tool x style x L parity x S parity x every length), option boundary values and id sets with string relations, runs with a pre-existing manifest (all 16 subsets), and pairs of tool runs in one interpreter.",
+             "syntaxes must agree and a fixed --seed must be reproducible (dither). Also --seed over {0,1,7,2^31-1}, separate interpreter processes with distinct hash salts, a framing lattice (tool x style x L parity x S parity x every length), option boundary values and id sets with string relations, runs with a pre-existing manifest (all 16 subsets), and pairs of tool runs in one interpreter. Wave 4: silent, zero-padded and very quiet utterances.",
         note="Order of the torch tool's two Preemphasize filters is unobservable (they commute); signal "
              "lengths L//2+1 <= N < L are outside the torch tool's claimed domain (C14).",
         design="3/C09"),
@@ -121,7 +121,7 @@ CHECKS = {
              "completed utterance but the one in flight) are checked, the command is re-run and I3 (directory "
              "identical to an uninterrupted run incl. dither under --seed) and I4 (listed files not rewritten) "
              "are checked; thorough adds second-order kills. Worker counts 0..3 compared; the dataset "
-             "mechanism is driven for every assignment/order of <=4 items over <=3 simulated workers. Also ids with substring relations, non-default --file-prefix/--file-suffix, and `manifest_subsets`: id set x all 24 map orders x all 16 manifest subsets x seeds.",
+             "mechanism is driven for every assignment/order of <=4 items over <=3 simulated workers. Also ids with substring relations, non-default --file-prefix/--file-suffix, and `manifest_subsets`: id set x all 24 map orders x all 16 manifest subsets x seeds. Wave 5: a wrong file set of the uninterrupted run is reported as a violation.",
         note="Process kills at syscall granularity (page cache survives); OS scheduling of DataLoader "
              "workers is sampled, the repository-side seeding mechanism is enumerated (DESIGN 4).",
         design="3/C10"),
@@ -133,7 +133,7 @@ CHECKS = {
         text="Every container is written with its own writer and read back from a path and from a stream "
              "(array_equal, dtype, shape); the error lattice (no suffix, stream without force_as, unknown "
              "force_as); wds_read_signal must return None or an ndarray and never raise, hang or crash on "
-             "every enumerated byte string under every key suffix. Also multi-read SPHERE files through every access path, and call histories in a forked never-called process: every pair (triple) of calls over successful reads, documented errors and files named after force_as keywords; held results unchanged, no shared memory, module configuration unchanged.",
+             "every enumerated byte string under every key suffix. Also multi-read SPHERE files through every access path, and call histories in a forked never-called process: every pair (triple) of calls over successful reads, documented errors and files named after force_as keywords; held results unchanged, no shared memory, module configuration unchanged. Waves 4-5: a file rewritten between reads (4 ways, mtime restored), long multi-channel inputs through every reader, 21 kinds of file object, streams positioned at a non-zero offset.",
         note="wave, soundfile, numpy, torch, h5py writers trusted; short-read streams (pipes) not modelled.",
         design="3/C11"),
     "C12": dict(
@@ -145,7 +145,7 @@ CHECKS = {
              "every lattice point (both sides of every read boundary, frame sizes that do not divide 16384); "
              "both G.711 tables equal an independent ITU-T expansion on all 256 codes; every byte length of a "
              "truncated data section yields a warning and exactly the whole samples present; header faults "
-             "raise IOError. Also header sizes that are not multiples of 1024 (every size 1024..3100), counts around k*q for k<=4 (2nd-4th straddle), and call histories with held results.",
+             "raise IOError. Also header sizes that are not multiples of 1024 (every size 1024..3100), counts around k*q for k<=4 (2nd-4th straddle), and call histories with held results. Waves 4-5: 21 kinds of file object (names of every type, pipes, gzip, mmap), raw streams that return short reads.",
         note="The independent G.711 expansion and SPHERE writer are cross-checked against libsndfile in "
              "their selftests.",
         design="3/C12"),
@@ -159,7 +159,7 @@ CHECKS = {
              "provenance of history/mean slots), is encoded by an independent encoder and decoded by the real "
              "decoder, which must return exactly the target samples; the model decoder is itself validated "
              "on the six sph2pipe vectors; every truncation that cuts a command, undefined command codes and "
-             "versions must raise IOError; long streams exercise the bit reader's refill.",
+             "versions must raise IOError; long streams exercise the bit reader's refill. Waves 4-5: QLPC with no taps, mu-law type 0, complete streams of every length around the reader's refill points, every kind of file object incl. a pipe.",
         note="Sample values: fixed generic sequence plus extremes; validity policy of generated streams as "
              "listed in the module's ASSUMPTIONS; merged BFS keyed without sample values (unmerged depth-4 "
              "sequences and the fine-keyed thorough BFS cover what merging could hide).",
@@ -172,7 +172,7 @@ CHECKS = {
              "(4 bank kinds x L 2..12 x S x pad x 3 styles x windows x energy/log/power x N in {0,1,L//2,L,"
              "L+1,2L+1,3L+S} x float32/float64), shapes incl. empty column count; wrappers (Preemphasize, "
              "PostProcessorWrapper, SI computer, Dither algebra and fixed-seed moments); scripted and traced "
-             "modules equal eager. Also non-contiguous input tensors, and for the wrappers: caller's tensor unchanged, second call equals the first. Wave 4: parameter-free modules traced with an example of the other dtype.",
+             "modules equal eager. Also non-contiguous input tensors, and for the wrappers: caller's tensor unchanged, second call equals the first. Wave 4: parameter-free modules traced with an example of the other dtype. Wave 5: dither module modes (eval, train(False), scripted in eval mode, deepcopy, state_dict), all wrappers under torch.set_default_dtype(float64).",
         note="Lengths L//2+1 <= N < L are outside the property's claim and the lattice; the torch "
              "constructor's documented refusal of empty filters (DFT size 2 Fbank) is skipped and counted.",
         design="3/C14"),
@@ -183,7 +183,7 @@ CHECKS = {
                   "against an explicit-loop reference; object call histories",
         text="Every lattice point is compared (exact shape and dtype, values to 1e-12, ints exact up to the "
              "documented truncation) with the Kaldi recursion written with explicit loops and explicit edge "
-             "extension; 2-D fast path vs N-D path; input unchanged unless in_place. Also object histories: every sequence of calls on one Deltas/Stack object (merged BFS to depth 3-4 plus un-merged pairs/triples) with all results held, vs a fresh object and the reference.",
+             "extension; 2-D fast path vs N-D path; input unchanged unless in_place. Also object histories: every sequence of calls on one Deltas/Stack object (merged BFS to depth 3-4 plus un-merged pairs/triples) with all results held, vs a fresh object and the reference. Waves 4-5: every numpy pad mode incl. callables, transport routes with every non-default option, refused calls inside histories with attributes unchanged.",
         note="Callable pad modes are not enumerated; an empty filtered axis only with num_deltas=0.",
         design="3/C15"),
     "C16": dict(
@@ -207,7 +207,7 @@ CHECKS = {
              "compress, overwrite) are explored on the real Standardize in a scratch directory; after every "
              "save the statistics are reloaded (array_equal apply), the npz archive must contain exactly what "
              "the docstring promises for the overwrite flag, saving onto any existing file must succeed, and "
-             "saving without statistics must raise ValueError. Also a data alphabet with constant / near-degenerate coefficients over every target, live histories without snapshots, and re-saving narrower/wider statistics or over another writer's file.",
+             "saving without statistics must raise ValueError. Also a data alphabet with constant / near-degenerate coefficients over every target, live histories without snapshots, and re-saving narrower/wider statistics or over another writer's file. Waves 4-5: digit-only / arr_N-like npz keys, 8 path spellings with the scratch directory as current directory.",
         note="Garbage content at a target path is not in the alphabet; compression is observed, not judged.",
         design="3/C17"),
     "C18": dict(
@@ -217,7 +217,7 @@ CHECKS = {
         text="Preemphasize: every N 0..6 x 5 dtypes x coefficients x in_place x layouts equals the explicit "
              "loop computed in float64 and cast back, input untouched unless in_place. Dither: seeds 0..31 "
              "reproducible, apply(x)-x independent of x (to 8 ulp of max|x|), exactly linear in coeff on a "
-             "zero signal, coeff 0 identity; fixed-seed mean/std inside 6 standard errors. Also signals around powers of two up to 2^17+1, all histories of depth 6 over {seed, apply} on one Dither object, every 3-operation sequence incl. apply-to-previous-result and coeff re-assignment with results held, and integer signals at the dtype rails. Wave 4: several live objects with different coefficients (every 3-operation sequence, closed-form oracle per object), non-native byte-order dtypes.",
+             "zero signal, coeff 0 identity; fixed-seed mean/std inside 6 standard errors. Also signals around powers of two up to 2^17+1, all histories of depth 6 over {seed, apply} on one Dither object, every 3-operation sequence incl. apply-to-previous-result and coeff re-assignment with results held, and integer signals at the dtype rails. Wave 4: several live objects with different coefficients (every 3-operation sequence, closed-form oracle per object), non-native byte-order dtypes. Wave 5: copy / deepcopy / pickle routes, exhaustive int16 tie sweep (every value as previous sample x 14 coefficients), signed and unsigned 8-64 bit rails.",
         note="The distributional claim is checked as a deterministic fixed-seed computation (DESIGN 4).",
         design="3/C18"),
     "C19": dict(
@@ -226,7 +226,7 @@ CHECKS = {
                   "neighbourhoods of the Bark break-points + parameter lattice) with adjacency monotonicity",
         text="Round trips both ways to 1e-9, strict increase between every pair of adjacent grid points, "
              "continuity at the Bark break-points, agreement with independently re-implemented published "
-             "mel/Bark formulas, 1000 Hz = 1000 mel +- 0.02, OctaveScaling(low_hz<=0) rejected. Also histories: two instances with different parameters in one process and re-assignment of documented public attributes on a used object. Wave 4: the same number passed in both directions in every order on one and two instances (mel/Bark inverse closed forms in the oracle).",
+             "mel/Bark formulas, 1000 Hz = 1000 mel +- 0.02, OctaveScaling(low_hz<=0) rejected. Also histories: two instances with different parameters in one process and re-assignment of documented public attributes on a used object. Wave 4: the same number passed in both directions in every order on one and two instances (mel/Bark inverse closed forms in the oracle). Wave 5: every numpy integer type up to its limits (found F29), octave anchor in -O / -OO / PYTHONOPTIMIZE interpreters, transport of scale objects.",
         note="'All real frequencies' is represented by the grid; at the +-64 ulp neighbourhoods only "
              "'no drop beyond 8 ulp' is demanded (adjacent floats may map to one value).",
         design="3/C19"),
@@ -238,7 +238,7 @@ CHECKS = {
              "sum = 1+O(1/width), gamma closed form and arg-max band. circshift_fourier: dft_size 1..12 and "
              "None x segment length x start_idx x shift -2D..2D x copy x dtype: ifft(pad(out)) == "
              "roll(ifft(pad(in)), shift). gauss_quant vs erfc bisection (lower tail + symmetry), monotone, "
-             "affine in mu/std; angular/hertz inverses. Also window call histories: the caller overwrites every returned array in place before the next call on the same or another object.",
+             "affine in mu/std; angular/hertz inverses. Also window call histories: the caller overwrites every returned array in place before the next call on the same or another object. Wave 5: widths as numpy integers, windows after copy / deepcopy / pickle and under np.errstate(all='raise'), circshift flag and integer spellings.",
         note="numpy.fft and math.erfc trusted; tolerances as corrected in DESIGN 3/C20.",
         design="3/C20"),
 }
